@@ -2,8 +2,9 @@ import IceProofs.Sys2C20
 /-!
 # C20 on `Sys2` — a quiesced exchange stays quiesced
 
-From a quiesced state of an exchange, as long as A does not call `RenominateCandidate` again (and the session goes on:
-no Restart / Close, roles kept, nobody Failed), under every schedule: the state stays quiesced and an existing
+From a quiesced state of an exchange, as long as A issues no nomination again — neither through `RenominateCandidate`
+nor through the automatic check of its selector (the log of issued nominations does not grow) — and the session goes on
+(no Restart / Close, roles kept, nobody Failed), under every schedule: the state stays quiesced and an existing
 selection does not move (at B: once a value has been accepted).  This is what makes `Quiesced` the right notion: with
 no valued message in flight and no valued transaction outstanding, a valued answer cannot select at A and `acceptAt`
 cannot fire at B; a success response on a pair of B that carries an old deferred value is superseded; ordinary
@@ -26,9 +27,11 @@ theorem rests_issue {a : Agent} {ev : Ev} (h : rests ev = true) : issueOf a ev =
 theorem rests_of_not_api {ev : Ev} (h : ev.isApi = false) : rests ev = true := by
   cases ev <;> first | rfl | cases h
 
-structure RestInv (nat : List (Nat × Nat)) (sa sb lb : Option Nat) (xa xb : Option (Nat × Nat)) (h : Hist) (s : Sys) :
-    Prop where
+structure RestInv (nat : List (Nat × Nat)) (n0 : Nat) (sa sb lb : Option Nat) (xa xb : Option (Nat × Nat)) (h : Hist)
+    (s : Sys) : Prop where
   q : QInv nat h s
+  /-- the log of issued nominations is at least as long as it was when the exchange came to rest -/
+  logLen : n0 ≤ h.issued.length
   quiet : Quiesced s
   selA : ∀ id, sa = some id → s.a.selected = some id
   lastB : s.b.lastNomination = lb
@@ -49,21 +52,25 @@ theorem selAddrs_keep' {ex : Option Nat} {iss : Option (Nat × Nat × Nat)} {a a
   | none => have := selAddrs_some_selected hx; rw [hsel] at this; cases this
   | some id => exact selAddrs_keep hq ((hs id hsel).trans hsel.symm) x hx
 
-theorem rest_frame {nat : List (Nat × Nat)} {sa sb lb : Option Nat} {xa xb : Option (Nat × Nat)} {h : Hist} {s s' : Sys}
-    (r : RestInv nat sa sb lb xa xb h s) (ha : s'.a = s.a) (hb : s'.b = s.b) (hn : s'.nat = s.nat)
-    (hf : ∀ d ∈ s'.inflight, d ∈ s.inflight) : RestInv nat sa sb lb xa xb h s' := by
-  refine ⟨qinv_frame r.q ha hb hn hf, ?_, ha ▸ r.selA, hb ▸ r.lastB, hb ▸ r.selB, ha ▸ r.addrA, hb ▸ r.addrB⟩
+theorem rest_frame {nat : List (Nat × Nat)} {n0 : Nat} {sa sb lb : Option Nat} {xa xb : Option (Nat × Nat)} {h : Hist}
+    {s s' : Sys}
+    (r : RestInv nat n0 sa sb lb xa xb h s) (ha : s'.a = s.a) (hb : s'.b = s.b) (hn : s'.nat = s.nat)
+    (hf : ∀ d ∈ s'.inflight, d ∈ s.inflight) : RestInv nat n0 sa sb lb xa xb h s' := by
+  refine ⟨qinv_frame r.q ha hb hn hf, r.logLen, ?_, ha ▸ r.selA, hb ▸ r.lastB, hb ▸ r.selB, ha ▸ r.addrA, hb ▸ r.addrB⟩
   obtain ⟨q1, q2, q3⟩ := r.quiet
   exact ⟨fun d hd => q1 d (hf d hd), by rw [ha]; exact q2, by rw [hb]; exact q3⟩
 
 theorem nk_def {p : Pair} {x : Bool × Bool × Option Nat} (h : nk p = x) : p.deferredNom = x.2.2 := by
   rw [← h]; rfl
 
-theorem rest_agentEv {nat : List (Nat × Nat)} {sa sb lb : Option Nat} {xa xb : Option (Nat × Nat)} {h : Hist} {s : Sys}
-    (r : RestInv nat sa sb lb xa xb h s) (X : Bool) (ev : Ev) (hk : rests ev = true)
+theorem rest_agentEv {nat : List (Nat × Nat)} {n0 : Nat} {sa sb lb : Option Nat} {xa xb : Option (Nat × Nat)} {h : Hist}
+    {s : Sys}
+    (r : RestInv nat n0 sa sb lb xa xb h s) (X : Bool) (ev : Ev) (hk : rests ev = true)
     (hadm : (∀ now la src m, ev ≠ .inbound now la src m) ∨ ∃ d, (DgramOK h d ∧ valFree d = true) ∧ ev = evOf s d)
-    (hsess : Session (s.agentEv X ev).1) (hz : ∀ x ∈ (hstep h X (s.agent X) ev).issued, 0 < x.1) :
-    RestInv nat sa sb lb xa xb (hstep h X (s.agent X) ev) (s.agentEv X ev).1 := by
+    (hsess : Session (s.agentEv X ev).1)
+    (hzl : (∀ x ∈ (hstep h X (s.agent X) ev).issued, 0 < x.1) ∧ (hstep h X (s.agent X) ev).issued.length ≤ n0) :
+    RestInv nat n0 sa sb lb xa xb (hstep h X (s.agent X) ev) (s.agentEv X ev).1 := by
+  obtain ⟨hz, hlen⟩ := hzl
   have hadmQ : (∀ now la src m, ev ≠ .inbound now la src m) ∨ ∃ d, DgramOK h d ∧ ev = evOf s d := by
     rcases hadm with h1 | ⟨d, hd, he⟩
     · exact Or.inl h1
@@ -77,7 +84,14 @@ theorem rest_agentEv {nat : List (Nat × Nat)} {sa sb lb : Option Nat} {xa xb : 
     rw [agentEv_a_false] at hpA
     obtain ⟨hp1, hp2, hp3, hp4⟩ := hpA
     obtain ⟨hq, hsel, hans⟩ := step_frame_ctl s.a ev r.q.invA hs1 (rests_keeps hk) hs5 hp3 hp4
-    have hiss : issueOf s.a ev = none := rests_issue hk
+    -- the log of issued nominations has not grown: A issues nothing in this event
+    have hiss : issuesOf s.a ev = [] := by
+      have eA : s.agent false = s.a := rfl
+      rw [eA, hstepA_issued, List.length_append] at hlen
+      have := r.logLen
+      exact List.eq_nil_of_length_eq_zero (by omega)
+    have hlen' : n0 ≤ (hstep h false s.a ev).issued.length := by
+      rw [hstepA_issued, List.length_append]; have := r.logLen; omega
     -- an existing selection of A does not move: an answered transaction carries no value
     have hsame : ∀ id0, s.a.selected = some id0 → (step s.a ev).1.selected = some id0 := by
       intro id0 hid0
@@ -89,7 +103,7 @@ theorem rest_agentEv {nat : List (Nat × Nat)} {sa sb lb : Option Nat} {xa xb : 
         simp only []
         have hpn : pd.nom = none := q2 pd (hans pd id hao).1
         simp [hpn, hid0]
-    refine ⟨q', ⟨?_, ?_, ?_⟩, ?_, ?_, ?_, ?_, ?_⟩
+    refine ⟨q', hlen', ⟨?_, ?_, ?_⟩, ?_, ?_, ?_, ?_, ?_⟩
     · intro d hd
       rw [agentEv_inflight_false] at hd
       rcases List.mem_append.mp hd with hd | hd
@@ -106,10 +120,13 @@ theorem rest_agentEv {nat : List (Nat × Nat)} {sa sb lb : Option Nat} {xa xb : 
             rw [hiss] at h4; cases h4
     · intro pd hpd
       rw [agentEv_a_false] at hpd
-      rcases hq.pend pd hpd with h1 | h1 | ⟨v, _, h2⟩
+      rcases hq.pend pd hpd with h1 | h1 | ⟨v, _, h2 | h2⟩
       · exact q2 pd h1
       · exact h1
-      · rw [hiss] at h2; cases h2
+      · have := issueOf_mem_issuesOf h2
+        rw [hiss] at this; cases this
+      · have : (v, pd.src, pd.dest) ∈ issuesOf s.a ev := h2
+        rw [hiss] at this; cases this
     · rw [agentEv_b_false]; exact q3
     · intro id0 hid0
       rw [agentEv_a_false]; exact hsame id0 (r.selA id0 hid0)
@@ -206,7 +223,8 @@ theorem rest_agentEv {nat : List (Nat × Nat)} {sa sb lb : Option Nat} {xa xb : 
           · exact hother hq p' hp' (by simpa using hid)
     obtain ⟨ex, hq, hsame, hmarks⟩ := hB
     have hlb : lb.isSome = true → s.b.lastNomination.isSome = true := fun h => by rw [r.lastB]; exact h
-    refine ⟨q', ⟨?_, ?_, ?_⟩, ?_, ?_, ?_, ?_, ?_⟩
+    have hlen' : n0 ≤ (hstep h true s.b ev).issued.length := by rw [hstepB_issued]; exact r.logLen
+    refine ⟨q', hlen', ⟨?_, ?_, ?_⟩, ?_, ?_, ?_, ?_, ?_⟩
     · intro d hd
       rw [agentEv_inflight_true] at hd
       rcases List.mem_append.mp hd with hd | hd
@@ -220,8 +238,8 @@ theorem rest_agentEv {nat : List (Nat × Nat)} {sa sb lb : Option Nat} {xa xb : 
           | none => rfl
           | some v =>
             obtain ⟨_, _, _, h4⟩ := step_out_nom s.b ev d.src d.dst m v (mem_dgramsOf_stun hd hp) hn
-            have := issueOf_controlling h4
-            rw [hs6] at this; cases this
+            rw [issuesOf_controlled s.b ev hp3] at h4
+            cases h4
     · rw [agentEv_a_true]; exact q2
     · rw [agentEv_b_true, hl]
       intro p' hp' hsome
@@ -239,8 +257,9 @@ theorem rest_agentEv {nat : List (Nat × Nat)} {sa sb lb : Option Nat} {xa xb : 
       rw [agentEv_b_true]
       exact selAddrs_keep' hq (hsame (hlb hls)) x (r.addrB hls x hx)
 
-theorem rest_sched (nat : List (Nat × Nat)) (sa sb lb : Option Nat) (xa xb : Option (Nat × Nat)) :
-    SchedOK rests (RestInv nat sa sb lb xa xb) (fun h _ d => DgramOK h d ∧ valFree d = true) where
+theorem rest_sched (nat : List (Nat × Nat)) (n0 : Nat) (sa sb lb : Option Nat) (xa xb : Option (Nat × Nat)) :
+    SchedOKZ rests (RestInv nat n0 sa sb lb xa xb) (fun h _ d => DgramOK h d ∧ valFree d = true)
+      (fun l => (∀ x ∈ l, 0 < x.1) ∧ l.length ≤ n0) where
   hub := fun _ h => rests_of_not_api h
   sess := fun _ _ r => r.q.sess
   dgram := fun _ _ r d hd => ⟨r.q.fl d hd, r.quiet.1 d hd⟩
@@ -248,14 +267,18 @@ theorem rest_sched (nat : List (Nat × Nat)) (sa sb lb : Option Nat) (xa xb : Op
   frame := fun _ _ _ r ha hb hn hf => rest_frame r ha hb hn hf
   agent := fun _ _ X ev r hk hadm hs hz => rest_agentEv r X ev hk hadm hs hz
 
-/-- **A quiesced exchange rests.**  From a quiesced state of an exchange, along every continuation `ex2` in which A
-does not call `RenominateCandidate` (no Restart / Close, every state a `Session`): the state stays quiesced; a pair A
-has selected stays selected; B's highest accepted value stays, and once B has accepted a value, a pair B has selected
-stays selected.  (Where nothing is selected yet, or B has accepted no value, an ordinary nomination may still select.) -/
+/-- **A quiesced exchange rests.**  From a quiesced state of an exchange, along every continuation `ex2` in which A issues
+no nomination — it does not call `RenominateCandidate`, and the automatic check of its selector (`WithAutomatic-
+Renomination`) does not fire: the log of issued nominations is the same at the end (`hno`) — (no Restart / Close, every
+state a `Session`): the state stays quiesced; a pair A has selected stays selected; B's highest accepted value stays, and
+once B has accepted a value, a pair B has selected stays selected.  (Where nothing is selected yet, or B has accepted no
+value, an ordinary nomination may still select.) -/
 theorem quiesced_rests {s0 : Sys} (hf : Fresh s0) (pre ex ex2 : List SysEv) (he : Established (Sys.runs s0 pre))
     (hex : Exchange (Sys.runs s0 pre) ex) (hz : PositiveValues (hist (Sys.runs s0 pre) ex).issued)
     (hq : Quiesced (Sys.runs (Sys.runs s0 pre) ex))
-    (hex2 : ExchangeK rests (Sys.runs (Sys.runs s0 pre) ex) ex2) :
+    (hex2 : ExchangeK rests (Sys.runs (Sys.runs s0 pre) ex) ex2)
+    (hno : (histFrom (hist (Sys.runs s0 pre) ex) (Sys.runs (Sys.runs s0 pre) ex) ex2).issued =
+      (hist (Sys.runs s0 pre) ex).issued) :
     Quiesced (Sys.runs (Sys.runs (Sys.runs s0 pre) ex) ex2) ∧
     (∀ id, (Sys.runs (Sys.runs s0 pre) ex).a.selected = some id →
       (Sys.runs (Sys.runs (Sys.runs s0 pre) ex) ex2).a.selected = some id) ∧
@@ -268,87 +291,12 @@ theorem quiesced_rests {s0 : Sys} (hf : Fresh s0) (pre ex ex2 : List SysEv) (he 
       (∀ x, selAddrs (Sys.runs (Sys.runs s0 pre) ex).b = some x →
         selAddrs (Sys.runs (Sys.runs (Sys.runs s0 pre) ex) ex2).b = some x)) := by
   have q := exchange_qinv hf pre ex he hex hz
-  have r0 : RestInv s0.nat _ _ _ _ _ (hist (Sys.runs s0 pre) ex) (Sys.runs (Sys.runs s0 pre) ex) :=
-    ⟨q, hq, fun _ h => h, rfl, fun _ _ h => h, fun _ h => h, fun _ _ h => h⟩
-  have hz2 : ∀ x ∈ (histFrom (hist (Sys.runs s0 pre) ex) (Sys.runs (Sys.runs s0 pre) ex) ex2).issued, 0 < x.1 := by
-    -- nothing is issued along `ex2`
-    have key : ∀ (h : Hist) (s : Sys) (es : List SysEv), (∀ e ∈ es, sysK rests e = true) →
-        (histFrom h s es).issued = h.issued := by
-      intro h s es
-      induction es generalizing h s with
-      | nil => intro _; rfl
-      | cons e es ih =>
-        intro hall
-        simp only [histFrom]
-        rw [ih _ _ (fun x hx => hall x (List.mem_cons_of_mem _ hx))]
-        have he := hall e (List.mem_cons_self ..)
-        -- one system event
-        unfold hstepSys
-        generalize hm : microEvs s e = l
-        have hl : ∀ x ∈ l, rests x.2 = true := by
-          intro x hx
-          rw [← hm] at hx
-          cases e with
-          | api X ev =>
-            simp only [microEvs] at hx
-            split at hx
-            · simp only [List.mem_singleton] at hx
-              rw [hx]; exact he
-            · cases hx
-          | deliver k =>
-            simp only [microEvs] at hx
-            cases hk : s.inflight[k]? with
-            | none => rw [hk] at hx; cases hx
-            | some d =>
-              rw [hk] at hx
-              simp only [] at hx
-              split at hx
-              · cases hx
-              · cases ho : s.owner (s.unmapped d.dst) with
-                | none => rw [ho] at hx; cases hx
-                | some Y =>
-                  rw [ho] at hx
-                  simp only [List.mem_singleton] at hx
-                  rw [hx]
-                  exact rests_of_not_api (by unfold evOf; cases d.p <;> rfl)
-          | dup k =>
-            simp only [microEvs] at hx
-            cases hk : s.inflight[k]? with
-            | none => rw [hk] at hx; cases hx
-            | some d =>
-              rw [hk] at hx
-              simp only [] at hx
-              split at hx
-              · cases hx
-              · cases ho : s.owner (s.unmapped d.dst) with
-                | none => rw [ho] at hx; cases hx
-                | some Y =>
-                  rw [ho] at hx
-                  simp only [List.mem_singleton] at hx
-                  rw [hx]
-                  exact rests_of_not_api (by unfold evOf; cases d.p <;> rfl)
-          | drop k => simp only [microEvs] at hx; cases hx
-          | advance now =>
-            simp only [microEvs] at hx
-            rcases List.mem_cons.mp hx with hx | hx
-            · rw [hx]; rfl
-            · split at hx
-              · simp only [List.mem_singleton] at hx
-                rw [hx]; rfl
-              · cases hx
-        clear hm
-        induction l generalizing h with
-        | nil => rfl
-        | cons x xs ihl =>
-          simp only [List.foldl_cons]
-          rw [ihl _ (fun y hy => hl y (List.mem_cons_of_mem _ hy))]
-          have hx := hl x (List.mem_cons_self ..)
-          cases hX : x.1 with
-          | false => rw [hstepA_issued, rests_issue hx]; simp
-          | true => rw [hstepB_issued]
-    rw [key _ _ _ hex2.1]
-    exact hz
-  have r := sched_runs (rest_sched s0.nat _ _ _ _ _) r0 ex2 hex2 hz2
+  have r0 : RestInv s0.nat (hist (Sys.runs s0 pre) ex).issued.length _ _ _ _ _ (hist (Sys.runs s0 pre) ex)
+      (Sys.runs (Sys.runs s0 pre) ex) :=
+    ⟨q, Nat.le_refl _, hq, fun _ h => h, rfl, fun _ _ h => h, fun _ h => h, fun _ _ h => h⟩
+  have r := sched_runsZ (rest_sched s0.nat _ _ _ _ _ _)
+    (fun l l' hp hl => ⟨fun x hx => hl.1 x (hp.subset hx), Nat.le_trans hp.length_le hl.2⟩) r0 ex2 hex2
+    (by rw [hno]; exact ⟨hz, Nat.le_refl _⟩)
   exact ⟨r.quiet, r.selA, r.addrA, r.lastB, fun hls => ⟨r.selB hls, r.addrB hls⟩⟩
 
 end IceProofs.C20S
